@@ -252,7 +252,56 @@ func partU(tier string, rep *lib.Report) (int, map[string]any) {
 		}
 	}
 	evals += lateRejection(rep)
+	evals += initializerWithoutHandlers(rep)
 	return evals, map[string]any{"part_U_calls": evals, "part_U_valid_inputs_x_modes": accepted}
+}
+
+// initializerWithoutHandlers: the per-run step data is created exactly once per run id also for a step that has an
+// initializer but no signal handlers (it only emits signals, or has none at all): the handler gets that data.
+func initializerWithoutHandlers(rep *lib.Report) int {
+	n := 0
+	for _, variant := range []string{"nil handler map", "empty handler map", "emitters only"} {
+		n++
+		inits := 0
+		var got *stepData
+		calls := 0
+		var handlers map[string]schema.CallableSignal
+		var emitters map[string]*schema.SignalSchema
+		switch variant {
+		case "empty handler map":
+			handlers = map[string]schema.CallableSignal{}
+		case "emitters only":
+			emitters = map[string]*schema.SignalSchema{"progress": schema.NewSignalSchema("progress", outScope(), nil)}
+		}
+		cs := schema.NewCallableSchema(schema.NewCallableStepWithSignals[*stepData, map[string]any]("s",
+			ukit.BuildScope(ukit.WrapScope(ukit.MapObjA("A"))),
+			map[string]*schema.StepOutputSchema{"success": schema.NewStepOutputSchema(outScope(), nil, false)},
+			handlers, emitters, nil,
+			func() *stepData { inits++; return &stepData{id: inits} },
+			func(_ context.Context, d *stepData, _ map[string]any) (string, any) {
+				calls++
+				got = d
+				return "success", map[string]any{"message": "ran"}
+			}))
+		what := "CallStep on a step with an initializer and " + variant
+		fail := func(sig, detail string) {
+			rep.Violate(sig, what+"\n"+detail, map[string]any{"part": "U-init", "variant": variant})
+		}
+		var err error
+		pan, val, stack := ukit.Call(func() { _, _, err = cs.CallStep(context.Background(), "r1", "s", map[string]any{"x": "a"}) })
+		if pan {
+			fail(fmt.Sprintf("panic in %s: %s", lib.PanicSite(stack), lib.PanicClass(fmt.Sprint(val))), fmt.Sprint(val))
+			continue
+		}
+		if err != nil || calls != 1 {
+			fail("handler not invoked exactly once for an accepted input", fmt.Sprintf("err=%v calls=%d", err, calls))
+			continue
+		}
+		if inits != 1 || got == nil || got.id != 1 {
+			fail("step data initializer did not run exactly once per run id", fmt.Sprintf("%d initializer runs for 1 run id; the step handler got %#v", inits, got))
+		}
+	}
+	return n
 }
 
 // lateIn has an optional property held in a value field whose zero value violates the property's constraint: the
